@@ -149,6 +149,7 @@ def run(ctx):
         agg["changed_sorted_bounded_premises"][pr] = agg["changed_sorted_bounded_premises"].get(pr, 0) + 1
         if pr == "ok" and kv.get("concl") != "ok":
             csb_contra += 1
+        agg["walk_reaches_end_of_shorter_tree"] = agg.get("walk_reaches_end_of_shorter_tree", 0) + (kv.get("reach") == "1")
         agg["matched_spans"] += int(kv.get("matched", "0") or 0)
         agg["add_calls"] += int(kv.get("calls", "0") or 0)
         if db > 0 or kv.get("rchg") == "1":
